@@ -192,7 +192,11 @@ def case_power_history(ctx, prop, N):
     power must be conserved in each call - nothing may be carried over from an earlier geometry"""
     seq = [dict(wvl=Fr(1, 2), d1=Fr(1), d2=Fr(2), z=Fr(4), f=Fr(4)), dict(wvl=Fr(1), d1=Fr(2), d2=Fr(4), z=Fr(4), f=Fr(4)),
            dict(wvl=Fr(1, 2), d1=Fr(2), d2=Fr(1), z=Fr(8), f=Fr(8)), dict(wvl=Fr(1, 2), d1=Fr(1), d2=Fr(2), z=Fr(-4), f=Fr(-4)),
-           dict(wvl=Fr(1), d1=Fr(1), d2=Fr(2), z=Fr(2), f=Fr(2))]
+           dict(wvl=Fr(1), d1=Fr(1), d2=Fr(2), z=Fr(2), f=Fr(2)),
+           # one parameter apart from the first geometry, each in turn, then the first geometry again
+           dict(wvl=Fr(1, 2), d1=Fr(1), d2=Fr(2), z=Fr(4), f=Fr(4)), dict(wvl=Fr(1, 2), d1=Fr(1), d2=Fr(3), z=Fr(4), f=Fr(4)),
+           dict(wvl=Fr(1, 2), d1=Fr(3), d2=Fr(3), z=Fr(4), f=Fr(4)), dict(wvl=Fr(1, 4), d1=Fr(3), d2=Fr(3), z=Fr(4), f=Fr(4)),
+           dict(wvl=Fr(1, 4), d1=Fr(3), d2=Fr(3), z=Fr(6), f=Fr(6)), dict(wvl=Fr(1, 2), d1=Fr(1), d2=Fr(2), z=Fr(4), f=Fr(4))]
     op = _op()
     fn = getattr(op, prop)
     ctx.encoded(fn)
